@@ -4,7 +4,7 @@
    an environment `env` assigns a truth value to every condition atom of the assembly (cors enabled, mode == ...,
    ownHttpServer, ...); "credentials configured" = the atoms of gen_must (login non-empty, password non-empty). *)
 From Coq Require Import List String Ascii Bool NArith.
-From Qryn Require Import model.Auth model.Router proofs.AuthProofs proofs.B64Inv proofs.RoutesProofs gen.GenRoutes.
+From Qryn Require Import model.Auth model.Router model.RotateCfg model.AuthEnv proofs.AuthProofs proofs.B64Inv proofs.RoutesProofs proofs.AuthEnvProofs gen.GenRoutes.
 Import ListNotations.
 Open Scope string_scope.
 
@@ -231,3 +231,25 @@ Example fresh_router_fails :
                ORoute {| rt_router := 1; rt_prefix := false; rt_tpl := "/ready"; rt_methods := ["GET"]; rt_exact := true |};
                OServe 0; OServe 1] = false.
 Proof. reflexivity. Qed.
+
+(* From the environment to the conditions (model/AuthEnv.v: func portEnv of main.go; gen_atom_kinds says what each atom of
+   the regenerated assembly tests).  Whenever portEnv accepts the environment and a login and a password were given --
+   by QRYN_LOGIN / CLOKI_LOGIN and QRYN_PASSWORD / CLOKI_PASSWORD or by the configuration file -- the conditions main
+   evaluates on the resulting configuration make every reachable route guarded by BasicAuth, for every MODE, READONLY
+   ("key"), CORS_ALLOW_ORIGIN and every value of the atoms that are not about the configuration. *)
+Theorem environment_credentials_guard_every_route : forall e file preset c other,
+  port_env e file preset = Some c ->
+  (getenv e "CLOKI_LOGIN" <> "" \/ getenv e "QRYN_LOGIN" <> "" \/ a_user file <> "") ->
+  (getenv e "CLOKI_PASSWORD" <> "" \/ getenv e "QRYN_PASSWORD" <> "" \/ a_pass file <> "") ->
+  assembly_ok (active (valuation_of gen_atom_kinds c other) gen_assembly) = true.
+Proof. exact env_credentials_guard. Qed.
+Print Assumptions environment_credentials_guard_every_route.
+
+(* ... and the credentials BasicAuth is installed with are the ones given: CLOKI_ over QRYN_ over the file. *)
+Theorem environment_credentials_are_the_configured_ones : forall e file preset c, port_env e file preset = Some c ->
+  a_user c = (if nonempty (getenv e "CLOKI_LOGIN") then getenv e "CLOKI_LOGIN"
+              else if nonempty (getenv e "QRYN_LOGIN") then getenv e "QRYN_LOGIN" else a_user file) /\
+  a_pass c = (if nonempty (getenv e "CLOKI_PASSWORD") then getenv e "CLOKI_PASSWORD"
+              else if nonempty (getenv e "QRYN_PASSWORD") then getenv e "QRYN_PASSWORD" else a_pass file).
+Proof. exact port_env_credentials. Qed.
+Print Assumptions environment_credentials_are_the_configured_ones.
